@@ -189,6 +189,11 @@ def write_evidence(prop, tier, seed, coverage, assumptions, wall_s, violations, 
     return path
 
 
+def clear_replays(prop):
+    import shutil
+    shutil.rmtree(os.path.join(VERIF, 'replays', prop), ignore_errors=True)
+
+
 def write_replay(prop, name, script):
     d = os.path.join(VERIF, 'replays', prop)
     os.makedirs(d, exist_ok=True)
